@@ -26,6 +26,7 @@ META = {
     'technique': 'static analysis: abstract interpretation of both renderers on small concrete scenarios with foreign models, '
                  'SGR-state decoding of the recorded writes; exhaustiveness over an enum; foreign attribute universe',
 }
+META['text'] += ' Round 5: the coloured and plain renderers are also interpreted on sdoc streams longer (in items and characters) than every size constant they read; io.StringIO is modelled.'
 
 
 def _colorful_grammar():
